@@ -277,3 +277,9 @@ func L1InfoLeaf(ger, prevBlockHash common.Hash, ts uint64) common.Hash {
 	binary.BigEndian.PutUint64(t[:], ts)
 	return Keccak(ger[:], prevBlockHash[:], t[:])
 }
+
+// RootWith returns the root the tree would have after appending the given leaf hashes (nothing is registered).
+func (t *AppendTree) RootWith(pending []common.Hash) common.Hash {
+	c := &AppendTree{d: t.d, hashes: append(append([]common.Hash{}, t.hashes...), pending...)}
+	return c.sub(Height, 0)
+}
